@@ -493,6 +493,13 @@ def corpus():
     for b in [genb.rnd_bundle(rng, nblocks=n, crc_kind=ck) for n in (0, 1, 23, 40) for ck in (0, 1, 2)]:
         out.append(decode_case(rng, b, "hex-p"))
         out.append(decode_case(rng, b, "stdin-p"))
+    # payloads around the output buffering boundaries of the real binary (Stdout is a LineWriter over a 1024-byte buffer,
+    # pipes hold 64 KiB): a newline followed by a long newline-free tail, tails of exactly 1023/1024/1025 bytes, > 64 KiB
+    for tail in (1023, 1024, 1025, 3000, 8192, 70000):
+        for head in (b"x\n", b"\n", b"line one\r\nline two\n"):
+            pb = genb.rnd_bundle(rng, nblocks=1, crc_kind=rng.choice([0, 1, 2]))
+            pb["cs"][-1]["data"] = ("DATA", head + bytes((7 * i + 11) % 251 + 1 if (7 * i + 11) % 251 + 1 != 10 else 11 for i in range(tail)))
+            out.append(decode_case(rng, pb, "stdin-p" if tail > 30000 else rng.choice(["hex-p", "stdin-p"])))
     # a bundle without payload block: -p prints nothing
     nb = genb.rnd_bundle(rng, nblocks=2)
     nb["cs"] = nb["cs"][:-1]
